@@ -22,6 +22,9 @@ def run(tier, seed):
     for pe, we, sp in combos:
         ad = Hist1DAdapter(POS[pe], WTS[we], spelling=sp)
         ctx.replay(only_actions(g, {"NewEmpty", "Construct"}), ad, VIEW, label=f"{pe}/{we}/sp{sp}")
+    # engine T: random float data, bins from method names, rank-abstracted and validated by TLC against Hist1D
+    from props import trace_h1
+    trace_h1.run_part(ctx, tier, seed_offset=11)
     ctx.assumptions = ["binning depends only on the order of values and edges (embedding fan-out)",
                        "TLC, the TLA+ value parser and the adapter's exact Fraction comparison are trusted"]
     return ctx.finish("every NewEmpty/Construct transition of the TLC state graph of Hist1D is executed through physt.h1 / "
